@@ -220,153 +220,159 @@ Section Build.
 
   Definition default_suffix (t : string) : string := remove_char "."%char (remove_char "/"%char t).
 
+  (* BuildField for one view; returns the (possibly flattened) fields. [rec] builds a nested message. *)
+  Definition build_view (rec : mdesc -> string -> bres message) (d : mdesc)
+       (v : fview) (index_is_value : bool) (type_name fpath : string) (orig : option fdesc)
+    : bres (list field) :=
+    if o_excluded cfg type_name fpath then BOk []
+    else
+      bdo tt0 <- terraform_type v fpath;
+      let '(is_msg, tk, gs, zero) := tt0 in
+      let name := go_name (v_name v) in
+      let snake :=
+        match o_name_override cfg type_name fpath with
+        | Some s => s
+        | None => let j := json_name (v_jsontag v) in
+                  if String.eqb j "" then snake_case (v_name v) else j
+        end in
+      let computed := o_computed cfg type_name fpath in
+      let pms :=
+        match o_planmods cfg type_name fpath with
+        | Some l => l
+        | None => if o_use_state cfg && computed
+                  then ["github.com/hashicorp/terraform-plugin-framework/tfsdk.UseStateForUnknown()"]
+                  else []
+        end in
+      let vals := match o_validators cfg type_name fpath with Some l => l | None => [] end in
+      let base : finfo :=
+        {| fi_name := name; fi_snake := snake; fi_path := fpath; fi_kind := PrimitiveKind;
+           fi_tk := tk; fi_cast := gs; fi_nullable := v_star v; fi_zero := zero; fi_placeholder := false;
+           fi_oneof := None; fi_via := []; fi_parent := None;
+           fi_required := o_required cfg type_name fpath; fi_computed := computed;
+           fi_sensitive := o_sensitive cfg type_name fpath;
+           fi_validators := vals; fi_planmods := pms;
+           fi_comment := if index_is_value then "" else field_comment (v_comment v);
+           fi_suffix := "" |} in
+      (* setMessage: nested message of a non-map message field *)
+      bdo om <-
+        (if is_msg && negb (v_is_map v) then
+           match v_type v with
+           | PMsg mn =>
+               match find_msg mn with
+               | Some d' => bdo m' <- rec d' fpath; BOk (Some m')
+               | None => BErr ("failed to resolve message " ++ mn)
+               end
+           | _ => BOk None
+           end
+         else BOk None);
+      match om, (is_msg && negb (v_is_map v) && v_embed v)%bool with
+      | Some m', true =>
+          (* embedded: the message's fields take the place of the field *)
+          if negb (v_star v) then BOk (m_fields m')
+          else
+            BOk (map (fun c => match c with
+                               | Field ci cm =>
+                                   Field {| fi_name := fi_name ci; fi_snake := fi_snake ci; fi_path := fi_path ci;
+                                            fi_kind := fi_kind ci; fi_tk := fi_tk ci; fi_cast := fi_cast ci;
+                                            fi_nullable := fi_nullable ci; fi_zero := fi_zero ci;
+                                            fi_placeholder := fi_placeholder ci; fi_oneof := fi_oneof ci;
+                                            fi_via := m_name m' :: fi_via ci;
+                                            fi_parent := Some (m_name m', m_zero m');
+                                            fi_required := fi_required ci; fi_computed := fi_computed ci;
+                                            fi_sensitive := fi_sensitive ci; fi_validators := fi_validators ci;
+                                            fi_planmods := fi_planmods ci; fi_comment := fi_comment ci;
+                                            fi_suffix := fi_suffix ci |} cm
+                               end) (m_fields m'))
+      | _, _ =>
+          (* setMapValues *)
+          bdo mv <-
+            (match v_type v, orig with
+             | PMap kt vt, Some f =>
+                 match kt with
+                 | PScalar SString =>
+                     let vv := view_of_map_value f vt in
+                     bdo tt1 <- terraform_type vv fpath;
+                     let '(vmsg, vtk, vgs, _) := tt1 in
+                     bdo vom <-
+                       (if vmsg then
+                          match vt with
+                          | PMsg mn =>
+                              match find_msg mn with
+                              | Some d' => bdo m' <- rec d' fpath; BOk (Some m')
+                              | None => BErr ("failed to resolve message " ++ mn)
+                              end
+                          | _ => BOk None
+                          end
+                        else BOk None);
+                     BOk (Some (vmsg, vtk, vgs, v_star vv, vom))
+                 | _ => BErr ("non-string map keys are not supported " ++ fpath)
+                 end
+             | _, _ => BOk None
+             end);
+          let custom_t :=
+            match o_custom_type cfg fpath with
+            | Some t => Some t
+            | None => if String.eqb (v_custom v) "" then None else Some (v_custom v)
+            end in
+          let suffix :=
+            match custom_t with
+            | Some t => match o_suffix cfg t with Some s => s | None => default_suffix t end
+            | None => ""
+            end in
+          let '(kd, tk', gs', nullable', zero', msg') :=
+            match mv with
+            | Some (vmsg, vtk, vgs, vstar, vom) =>
+                ((if vmsg then ObjectMapKind else PrimitiveMapKind), vtk, vgs, vstar, false, vom)
+            | None =>
+                ((if v_is_repeated v then (if is_msg then ObjectListKind else PrimitiveListKind)
+                  else if is_msg then ObjectKind else PrimitiveKind), tk, gs, v_star v, zero, om)
+            end in
+          let kd' := match custom_t with Some _ => CustomKind | None => kd end in
+          let oneof :=
+            match v_oneof v with
+            | Some k => match nth_error (md_oneofs d) k with Some o => Some (go_name o) | None => Some "" end
+            | None => None
+            end in
+          BOk [Field {| fi_name := name; fi_snake := snake; fi_path := fpath; fi_kind := kd';
+                        fi_tk := tk'; fi_cast := gs'; fi_nullable := nullable'; fi_zero := zero';
+                        fi_placeholder := false; fi_oneof := oneof; fi_via := []; fi_parent := None;
+                        fi_required := fi_required base; fi_computed := computed;
+                        fi_sensitive := fi_sensitive base; fi_validators := vals; fi_planmods := pms;
+                        fi_comment := fi_comment base; fi_suffix := suffix |} msg']
+      end.
+
+  (* BuildFields: the fields of a message, in declaration order (embedded messages flattened) *)
+  Fixpoint build_field_list (rec : mdesc -> string -> bres message) (d : mdesc) (path : string)
+           (l : list fdesc) : bres (list field) :=
+    match l with
+    | [] => BOk []
+    | f :: r =>
+        let type_name := md_name d ++ "." ++ fd_name f in
+        let fpath := if fd_embed f then path else path ++ "." ++ fd_name f in
+        bdo x <- build_view rec d (view_of_field f) false type_name fpath (Some f);
+        bdo y <- build_field_list rec d path r;
+        BOk (x ++ y)%list
+    end.
+
+  Definition placeholder_field (path : string) : field :=
+    Field {| fi_name := "active"; fi_snake := "active"; fi_path := path ++ ".active";
+             fi_kind := PrimitiveKind; fi_tk := KBool; fi_cast := GsBool; fi_nullable := false;
+             fi_zero := true; fi_placeholder := true; fi_oneof := None; fi_via := [];
+             fi_parent := None; fi_required := false; fi_computed := true; fi_sensitive := false;
+             fi_validators := []; fi_planmods := [];
+             fi_comment := "Automatically generated field preventing empty message errors";
+             fi_suffix := "" |} None.
+
   Fixpoint build_message (fuel : nat) (d : mdesc) (path : string) {struct fuel} : bres message :=
     match fuel with
     | O => BFuel
     | S fuel' =>
         let mname := md_name d in
-        (* BuildField for one view; returns the (possibly flattened) fields *)
-        let build_view (v : fview) (index_is_value : bool) (type_name fpath : string) (orig : option fdesc)
-            : bres (list field) :=
-          if o_excluded cfg type_name fpath then BOk []
-          else
-            bdo tt0 <- terraform_type v fpath;
-            let '(is_msg, tk, gs, zero) := tt0 in
-            let name := go_name (v_name v) in
-            let snake :=
-              match o_name_override cfg type_name fpath with
-              | Some s => s
-              | None => let j := json_name (v_jsontag v) in
-                        if String.eqb j "" then snake_case (v_name v) else j
-              end in
-            let computed := o_computed cfg type_name fpath in
-            let pms :=
-              match o_planmods cfg type_name fpath with
-              | Some l => l
-              | None => if o_use_state cfg && computed
-                        then ["github.com/hashicorp/terraform-plugin-framework/tfsdk.UseStateForUnknown()"]
-                        else []
-              end in
-            let vals := match o_validators cfg type_name fpath with Some l => l | None => [] end in
-            let base : finfo :=
-              {| fi_name := name; fi_snake := snake; fi_path := fpath; fi_kind := PrimitiveKind;
-                 fi_tk := tk; fi_cast := gs; fi_nullable := v_star v; fi_zero := zero; fi_placeholder := false;
-                 fi_oneof := None; fi_via := []; fi_parent := None;
-                 fi_required := o_required cfg type_name fpath; fi_computed := computed;
-                 fi_sensitive := o_sensitive cfg type_name fpath;
-                 fi_validators := vals; fi_planmods := pms;
-                 fi_comment := if index_is_value then "" else field_comment (v_comment v);
-                 fi_suffix := "" |} in
-            (* setMessage: nested message of a non-map message field *)
-            bdo om <-
-              (if is_msg && negb (v_is_map v) then
-                 match v_type v with
-                 | PMsg mn =>
-                     match find_msg mn with
-                     | Some d' => bdo m' <- build_message fuel' d' fpath; BOk (Some m')
-                     | None => BErr ("failed to resolve message " ++ mn)
-                     end
-                 | _ => BOk None
-                 end
-               else BOk None);
-            match om, (is_msg && negb (v_is_map v) && v_embed v)%bool with
-            | Some m', true =>
-                (* embedded: the message's fields take the place of the field *)
-                if negb (v_star v) then BOk (m_fields m')
-                else
-                  BOk (map (fun c => match c with
-                                     | Field ci cm =>
-                                         Field {| fi_name := fi_name ci; fi_snake := fi_snake ci; fi_path := fi_path ci;
-                                                  fi_kind := fi_kind ci; fi_tk := fi_tk ci; fi_cast := fi_cast ci;
-                                                  fi_nullable := fi_nullable ci; fi_zero := fi_zero ci;
-                                                  fi_placeholder := fi_placeholder ci; fi_oneof := fi_oneof ci;
-                                                  fi_via := m_name m' :: fi_via ci;
-                                                  fi_parent := Some (m_name m', m_zero m');
-                                                  fi_required := fi_required ci; fi_computed := fi_computed ci;
-                                                  fi_sensitive := fi_sensitive ci; fi_validators := fi_validators ci;
-                                                  fi_planmods := fi_planmods ci; fi_comment := fi_comment ci;
-                                                  fi_suffix := fi_suffix ci |} cm
-                                     end) (m_fields m'))
-            | _, _ =>
-                (* setMapValues *)
-                bdo mv <-
-                  (match v_type v, orig with
-                   | PMap kt vt, Some f =>
-                       match kt with
-                       | PScalar SString =>
-                           let vv := view_of_map_value f vt in
-                           bdo tt1 <- terraform_type vv fpath;
-                           let '(vmsg, vtk, vgs, _) := tt1 in
-                           bdo vom <-
-                             (if vmsg then
-                                match vt with
-                                | PMsg mn =>
-                                    match find_msg mn with
-                                    | Some d' => bdo m' <- build_message fuel' d' fpath; BOk (Some m')
-                                    | None => BErr ("failed to resolve message " ++ mn)
-                                    end
-                                | _ => BOk None
-                                end
-                              else BOk None);
-                           BOk (Some (vmsg, vtk, vgs, v_star vv, vom))
-                       | _ => BErr ("non-string map keys are not supported " ++ fpath)
-                       end
-                   | _, _ => BOk None
-                   end);
-                let custom_t :=
-                  match o_custom_type cfg fpath with
-                  | Some t => Some t
-                  | None => if String.eqb (v_custom v) "" then None else Some (v_custom v)
-                  end in
-                let suffix :=
-                  match custom_t with
-                  | Some t => match o_suffix cfg t with Some s => s | None => default_suffix t end
-                  | None => ""
-                  end in
-                let '(kd, tk', gs', nullable', zero', msg') :=
-                  match mv with
-                  | Some (vmsg, vtk, vgs, vstar, vom) =>
-                      ((if vmsg then ObjectMapKind else PrimitiveMapKind), vtk, vgs, vstar, false, vom)
-                  | None =>
-                      ((if v_is_repeated v then (if is_msg then ObjectListKind else PrimitiveListKind)
-                        else if is_msg then ObjectKind else PrimitiveKind), tk, gs, v_star v, zero, om)
-                  end in
-                let kd' := match custom_t with Some _ => CustomKind | None => kd end in
-                let oneof :=
-                  match v_oneof v with
-                  | Some k => match nth_error (md_oneofs d) k with Some o => Some (go_name o) | None => Some "" end
-                  | None => None
-                  end in
-                BOk [Field {| fi_name := name; fi_snake := snake; fi_path := fpath; fi_kind := kd';
-                              fi_tk := tk'; fi_cast := gs'; fi_nullable := nullable'; fi_zero := zero';
-                              fi_placeholder := false; fi_oneof := oneof; fi_via := []; fi_parent := None;
-                              fi_required := fi_required base; fi_computed := computed;
-                              fi_sensitive := fi_sensitive base; fi_validators := vals; fi_planmods := pms;
-                              fi_comment := fi_comment base; fi_suffix := suffix |} msg']
-            end in
-        (* BuildFields *)
         bdo fields <-
           (match md_fields d with
-           | [] =>
-               BOk [Field {| fi_name := "active"; fi_snake := "active"; fi_path := path ++ ".active";
-                             fi_kind := PrimitiveKind; fi_tk := KBool; fi_cast := GsBool; fi_nullable := false;
-                             fi_zero := true; fi_placeholder := true; fi_oneof := None; fi_via := [];
-                             fi_parent := None; fi_required := false; fi_computed := true; fi_sensitive := false;
-                             fi_validators := []; fi_planmods := [];
-                             fi_comment := "Automatically generated field preventing empty message errors";
-                             fi_suffix := "" |} None]
+           | [] => BOk [placeholder_field path]
            | fs =>
-               bdo l <-
-                 (fix go (l : list fdesc) : bres (list field) :=
-                    match l with
-                    | [] => BOk []
-                    | f :: r =>
-                        let type_name := mname ++ "." ++ fd_name f in
-                        let fpath := if fd_embed f then path else path ++ "." ++ fd_name f in
-                        bdo x <- build_view (view_of_field f) false type_name fpath (Some f);
-                        bdo y <- go r;
-                        BOk (x ++ y)%list
-                    end) fs;
+               bdo l <- build_field_list (build_message fuel') d path fs;
                BOk (if o_sort cfg then sort_by (fun f => fi_name (f_info f)) l else l)
            end);
         let inj := match o_injected cfg path with Some l => l | None => [] end in
